@@ -26,6 +26,7 @@ SUBST = {
     "h5py": "engine.symh5",
     "scipy.sparse": "engine.symsp",
     "multiprocess": "engine.symmp",
+    "pysam": "engine.sympysam",
     "fractions": "engine.symfractions",
     "decimal": "engine.symfractions",
 }
